@@ -94,13 +94,13 @@ def showErr : Err → String
   | .hang => "model-hang"
   | .guard w => "model-guard " ++ w
   | .unsupported w => "unsupported " ++ w
-  | .includeFuel => "unsupported include depth"
+  | .includeFuel => "err IncludeDepthExceeded"
 
 def run (api : List ApiDefine) (files : List (String × List Line)) : String :=
   match files with
   | [] => "bad-request"
   | (entry, _) :: _ =>
-    match preprocess (handlerOf files) 64 api entry with
+    match preprocess (handlerOf files) RsslVerif.Gen.MacroTables.maxIncludeDepth api entry with
     | .error e => showErr e
     | .ok ts =>
       match prepare ts with
@@ -206,7 +206,7 @@ def classify (api : List ApiDefine) (files : List (String × List Line)) : Strin
     match initialMacros [] api with
     | .error _ => "not-tame"
     | .ok ms =>
-      match trunFile (tincludeFile (handlerOf files) 64) entry ⟨{ macros := ms, out := [], once := [] }, true⟩ lines with
+      match trunFile (tincludeFile (handlerOf files) RsslVerif.Gen.MacroTables.maxIncludeDepth) entry ⟨{ macros := ms, out := [], once := [] }, true⟩ lines with
       | .error _ => "not-tame"
       | .ok ts => if ts.tame then "tame" else "not-tame"
 
